@@ -374,8 +374,11 @@ void balance_t::print(std::ostream&       out,
 
 void put_balance(property_tree::ptree& st, const balance_t& bal)
 {
-  foreach (const balance_t::amounts_map::value_type& pair, bal.amounts)
-    put_amount(st.add("amount", ""), pair.second);
+  // Walk the amounts in sorted order: the map is keyed by commodity pointer, so
+  // its own iteration order depends on heap addresses.
+  bal.map_sorted_amounts([&st](const amount_t& amt) {
+    put_amount(st.add("amount", ""), amt);
+  });
 }
 
 balance_t average_lot_prices(const balance_t& bal)
